@@ -70,7 +70,17 @@ func genSched(r *Rng, tier string, stat func(string)) []string {
 		case 3:
 			closer = fmt.Sprintf("close:%d", r.Intn(300))
 		}
-		out = append(out, fmt.Sprintf("%s plan=%s pings=%d closer=%s yseed=%d", cfg, strings.Join(plans, "/"), r.Intn(4), closer, r.Intn(1<<30)))
+		// extra pinger goroutines: several control frames can then queue for the frame lock at the same time
+		xping := 0
+		if i%3 != 1 {
+			xping = 1 + r.Intn(3)
+		}
+		// a slow transport (every transport write sleeps) keeps the frame lock busy, so that writers and pingers pile up behind it
+		slow := 0
+		if i%3 == 2 {
+			slow = 100 + r.Intn(300)
+		}
+		out = append(out, fmt.Sprintf("%s plan=%s pings=%d xping=%d slow=%d closer=%s yseed=%d", cfg, strings.Join(plans, "/"), r.Intn(4)+xping, xping, slow, closer, r.Intn(1<<30)))
 		stat("writers:" + strconv.Itoa(nw))
 		stat("closer:" + strings.Split(closer, ":")[0])
 	}
@@ -116,12 +126,17 @@ func runSched(kv map[string]string) string {
 	c.CloseRead(ctx)
 	plans := strings.Split(kv["plan"], "/")
 	npings, _ := strconv.Atoi(kv["pings"])
-	nthreads := len(plans) + 2
+	xping, _ := strconv.Atoi(kv["xping"])
+	nthreads := len(plans) + 2 + xping
 	goids := make([]int64, nthreads)
 	results := make([][]string, nthreads)
 	var wg sync.WaitGroup
 	start := make(chan struct{})
+	slow, _ := strconv.Atoi(kv["slow"])
 	jitter := func() {
+		if slow > 0 {
+			time.Sleep(time.Duration(slow) * time.Microsecond)
+		}
 		ymu.Lock()
 		k := yr.Intn(8)
 		ymu.Unlock()
@@ -199,6 +214,27 @@ func runSched(kv map[string]string) string {
 			}
 		}
 	}()
+	for x := 0; x < xping; x++ {
+		xi := len(plans) + 2 + x
+		wg.Add(1)
+		go func(xi int) {
+			defer wg.Done()
+			defer pb.guard()
+			goids[xi] = websocket.VerifGoID()
+			<-start
+			for k := 0; k < npings; k++ {
+				jitter()
+				pctx, pc := context.WithTimeout(ctx, 2*time.Second)
+				e := c.Ping(pctx)
+				pc()
+				if e == nil {
+					results[xi] = append(results[xi], "1")
+				} else {
+					results[xi] = append(results[xi], "0")
+				}
+			}
+		}(xi)
+	}
 	ci := len(plans) + 1
 	cl := strings.Split(kv["closer"], ":")
 	delay, _ := strconv.Atoi(cl[1])
